@@ -213,7 +213,7 @@ Proof.
 Qed.
 
 Section AnyPulse.
-  Variable pl : nat -> nat -> N -> N -> list cop.
+  Variable pl : nmap -> nat -> nat -> N -> N -> list cop.
 
   Lemma pulse_self_ev G f s x now s1 :
     Good G (nd s) -> pulse_self pl f s x now = Some s1 -> ev_rel now s s1.
@@ -222,7 +222,7 @@ Section AnyPulse.
     destruct (valid (nd s x) && N.leb (sched (nd s x)) now) eqn:Hdue.
     - apply andb_prop in Hdue. destruct Hdue as [Hv Hle]. apply N.leb_le in Hle.
       set (m1 := upd (nd s) x (set_npl (nd s x) (S (npl (nd s x))))) in *.
-      destruct (run_cops f m1 (pl x (npl (nd s x)) now (sched (nd s x)))) as [m2|] eqn:Hr; [|discriminate].
+      destruct (run_cops f m1 (pl m1 x (npl (nd s x)) now (sched (nd s x)))) as [m2|] eqn:Hr; [|discriminate].
       inversion H; subst s1. clear H.
       assert (Hg1 : Good G m1).
       { unfold m1. apply Good_scalar_upd;
@@ -299,8 +299,8 @@ Definition pframe (m m' : nmap) (x : nat) : Prop :=
   (forall z, ~ desc m x z -> ~ desc m z x -> cur (m' z) = cur (m z)).
 
 Section PurePulse.
-  Variable pl : nat -> nat -> N -> N -> list cop.
-  Hypothesis pl_pure : forall x k now st, pl x k now st = [].
+  Variable pl : nmap -> nat -> nat -> N -> N -> list cop.
+  Hypothesis pl_pure : forall m x k now st, pl m x k now st = [].
 
   Lemma pulse_self_pure f s x now s1 :
     pulse_self pl f s x now = Some s1 ->
